@@ -35,10 +35,14 @@ def universe():
     return sorted(paths | extra)
 
 
+BUILT = [0]
+
+
 def build(c):
     for rel, data in fixture_files():
         c.embfile(rel, data)
-    c.base("emb")
+    BUILT[0] += 1
+    c.base("emb" if BUILT[0] % 2 else "embd")       # both public constructors: new() and Default::default()
     for rel, data in fixture_files():
         c.embfile(rel, data)
     c.base("physfix")
